@@ -39,8 +39,17 @@ class LoggedMachine(RuleBasedStateMachine):
         ctx = self.ctx
         ctx.event("op:" + str(op[0]))
         try:
-            getattr(self, "op_" + op[0])(*op[1:])
-            self.check()
+            try:
+                getattr(self, "op_" + op[0])(*op[1:])
+                self.check()
+            except PropertyViolation:
+                raise
+            except Exception as e:  # noqa: BLE001
+                import hypothesis.errors
+                where = None if isinstance(e, hypothesis.errors.HypothesisException) else ctx.blame(e)
+                if where is None:
+                    raise       # harness error
+                raise PropertyViolation("code_under_test_raises", "%s: %s at %s" % (type(e).__name__, str(e)[:300], where)) from e
         except PropertyViolation as v:
             for key, pred in self.unit_known.items():
                 if key in ctx.known_keys and pred(v.kind, self.log, v.detail):
